@@ -693,6 +693,25 @@ func genC03(t *rapid.T) c03Case {
 		p.Files = true
 		p.Key = fmt.Sprint(form)
 	}
+	// both spellings go through the same pipeline, whatever parts of it the caller switches off. (Not
+	// SkipDefaultValues: a short form spells defaults out that a long form may leave to that step. Not
+	// NoResolvePaths together with files: unresolved files are looked up in the process directory.)
+	if rapid.IntRange(0, 3).Draw(t, "optset") == 0 {
+		switch rapid.IntRange(0, 4).Draw(t, "optwhich") {
+		case 0:
+			p.Opts.SkipNormalization = true
+		case 1:
+			p.Opts.SkipConsistencyCheck = true
+		case 2:
+			if !p.Files && p.Via == "" {
+				p.Opts.NoResolvePaths = true
+			}
+		case 3:
+			p.Opts.SkipNormalization, p.Opts.SkipConsistencyCheck = true, true
+		case 4:
+			p.Opts.ConvertWindowsPaths = true
+		}
+	}
 	return p.toCase()
 }
 
